@@ -7,6 +7,7 @@ from sa.rules import window_rules as WN
 from sa.rules import cpp_rules as C
 from sa.rules import pipeline as P
 from sa.rules import ranges as RG
+from sa.rules import validators as VX
 
 
 def main(tier):
@@ -55,4 +56,5 @@ def main(tier):
     chk.run("R-ELEMSTORAGE", B.elemstorage, cx.repo, cx.cpp, floor=2)
     chk.run("R-ENUMUNIQUE", B.enumunique, cx.repo, floor=2)
     chk.run("R-CONSTAGREE", BRX.constagree, cx.repo, floor=3)
+    chk.run("R-SUBBYTE", VX.subbyte, cx.repo, floor=3)
     return chk.finish()
